@@ -67,14 +67,15 @@ class ClientRig:
     """real DBusClientConnection <-> scripted daemon (WirePeer)"""
 
     def __init__(self, ctx, name='c1', unix=False, bus_name=':1.42', serial_start=None,
-                 calm_handshake=True, auto_bus=True):
+                 calm_handshake=True, auto_bus=True, node=None):
         sim = ctx.sim
         self.ctx = ctx
         self.sim = sim
         if serial_start is None:
             serial_start = 1 + ctx.ds.choose(2**32 - 10**6)
-        self.node = Node(name, serial_start=serial_start,
-                         known=dict(__import__('simdbus.seams', fromlist=['x']).KNOWN_AT_IMPORT))
+        # node: another connection of a process that already exists (shares its globals)
+        self.node = node or Node(name, serial_start=serial_start,
+                                 known=dict(__import__('simdbus.seams', fromlist=['x']).KNOWN_AT_IMPORT))
         self.factory = t_client.DBusClientFactory()
         self.connected = Obs(sim, name + '.connect').watch(self.factory.getConnection())
         self.proto = sim.call(self.node, self.factory.buildProtocol, None)
